@@ -1032,8 +1032,13 @@ class DestHandler:
             and self._params.acked_params.nak_activity_counter + 1
             == self._params.remote_cfg.nak_timer_expiration_limit
         ):
-            self._declare_fault(ConditionCode.NAK_LIMIT_REACHED)
-            return
+            if (
+                self._declare_fault(ConditionCode.NAK_LIMIT_REACHED)
+                != FaultHandlerCode.IGNORE_ERROR
+            ):
+                return
+            # Ignored fault: the NAK procedure continues with another sequence and timer run, so
+            # that the fault is not declared again on every call.
         # This is not the first NAK issuance and the timer expired.
         max_segments_in_one_pdu = get_max_seg_reqs_for_max_packet_size_and_pdu_cfg(
             self._params.remote_cfg.max_packet_len, self._params.pdu_conf
@@ -1260,11 +1265,16 @@ class DestHandler:
             if self._checksum_verify():
                 self._file_transfer_complete_transition()
                 return
-            if self._params.current_check_count + 1 >= self._params.remote_cfg.check_limit:
-                self._declare_fault(ConditionCode.CHECK_LIMIT_REACHED)
-            else:
-                self._params.current_check_count += 1
-                self._params.check_timer.reset()
+            if (
+                self._params.current_check_count + 1 >= self._params.remote_cfg.check_limit
+                and self._declare_fault(ConditionCode.CHECK_LIMIT_REACHED)
+                != FaultHandlerCode.IGNORE_ERROR
+            ):
+                return
+            # Also for an ignored fault: wait for another interval, so that the fault is not
+            # declared again on every call.
+            self._params.current_check_count += 1
+            self._params.check_timer.reset()
 
     def _declare_fault(self, cond: ConditionCode) -> FaultHandlerCode:
         fh = self.cfg.default_fault_handlers.get_fault_handler(cond)
